@@ -3148,7 +3148,9 @@ pub fn matrix_column_elements(&mut self, column_elements: &[&MatrixColumn]) -> S
     if self.html {
       format!("<span class=\"mech-string\">\"{}\"</span>", node.text.to_string())
     } else {
-      format!("\"{}\"", node.text.to_string())
+      // the parser decodes escape sequences; write the quote and the backslash back as escapes
+      let text = node.text.to_string().replace('\\', "\\\\").replace('"', "\\\"");
+      format!("\"{}\"", text)
     }
   }
 
